@@ -503,9 +503,84 @@ def r13_3(ctx, counts: dict[str, int]) -> RuleResult:
     return res
 
 
+SHARED_TABLE_CALLS = {'unicode_category', 'unicode_block', 'unicode_subset'}
+
+
+def r13_4(ctx, counts: dict[str, int]) -> RuleResult:
+    model = ctx.model
+    res = RuleResult(
+        'R13.4', 'SHARED-TABLE-ALIAS',
+        'The category/block tables and the lazy escape subsets are process-wide shared objects '
+        '(unicode_category(), unicode_block(), unicode_subset(), CHARACTER_ESCAPES[…]() and the '
+        'internal list of another UnicodeSubset, `other._codepoints` / `other.codepoints`). In '
+        'the regex package no such object is stored uncopied into the mutable state of an '
+        'instance (`self.positive/negative/_codepoints = shared`): the instance may only read it '
+        '(|=, &=, -= with the shared object on the right) or store a copy (.copy(), copy(), '
+        'UnicodeSubset(shared), list(shared)). Otherwise a later in-place operation on the '
+        'instance edits the installed table for the rest of the process.')
+    n = 0
+    for f in sorted(model.all_functions(), key=lambda q: q.key):
+        if not f.module.name.startswith('elementpath.regex') or f.cls is None:
+            continue
+        params = f.params()
+        if not params or params[0] != 'self':
+            continue
+        shared: set[str] = set()
+
+        def is_shared(e: ast.expr) -> bool:
+            if isinstance(e, ast.Name):
+                return e.id in shared
+            if isinstance(e, ast.Call):
+                d = dotted(e.func).split('.')[-1]
+                if d in SHARED_TABLE_CALLS:
+                    return True
+                # value() where value = CHARACTER_ESCAPES[...]
+                if isinstance(e.func, ast.Name) and e.func.id in escapes and not e.args:
+                    return True
+                if isinstance(e.func, ast.Subscript) and dotted(e.func.value) == 'CHARACTER_ESCAPES':
+                    return True
+                return False
+            if isinstance(e, ast.Attribute) and e.attr in ('_codepoints', 'codepoints') and \
+                    dotted(e.value) not in ('self', ''):
+                return True
+            return False
+        escapes = {t.id for st in walk_local(f.node) if isinstance(st, ast.Assign)
+                   and isinstance(st.value, ast.Subscript)
+                   and dotted(st.value.value) == 'CHARACTER_ESCAPES'
+                   for t in st.targets if isinstance(t, ast.Name)}
+        for st in sorted((x for x in walk_local(f.node) if isinstance(x, ast.Assign)),
+                         key=lambda q: q.lineno):
+            for t in st.targets:
+                if isinstance(t, ast.Name):
+                    if is_shared(st.value):
+                        shared.add(t.id)
+                    else:
+                        shared.discard(t.id)
+        for st in walk_local(f.node):
+            if isinstance(st, (ast.Assign, ast.AnnAssign)) and st.value is not None:
+                tgts = st.targets if isinstance(st, ast.Assign) else [st.target]
+                for t in tgts:
+                    if isinstance(t, ast.Attribute) and dotted(t.value) == 'self':
+                        n += 1
+                        if is_shared(st.value):
+                            res.fail(finding('R13.4', f, st, f'self.{t.attr} = shared table',
+                                             f'`{stmt_text(st)[:70]}` stores a process-wide shared '
+                                             f'code-point table into the mutable state of the '
+                                             f'instance without a copy: a later -=/|=/discard on '
+                                             f'this instance edits the installed table (\\p{{Nd}} '
+                                             f'stops matching digits for the rest of the process)'))
+                        else:
+                            res.ok()
+    res.instances.append(f'{n} instance-state assignments examined in elementpath.regex')
+    counts['regex_state_assignments'] = n
+    if n < 8:
+        raise AnalysisError(f'only {n} instance-state assignments located in the regex package')
+    return res
+
+
 def run(ctx) -> dict:
     counts: dict[str, int] = {}
-    results = [r13_1(ctx, counts), r13_2(ctx, counts), r13_3(ctx, counts)]
+    results = [r13_1(ctx, counts), r13_2(ctx, counts), r13_3(ctx, counts), r13_4(ctx, counts)]
     return {
         'results': results, 'counts': counts,
         'explanation':
